@@ -315,3 +315,69 @@ def array_join_operand_unchanged(x0: int, x1: int, x2: int) -> bool:
     """
     return ev(T['join_operand'], x0=x0, x1=x1, x2=x2) == [3, 2, 1, x0, x1, x2] \
         and ev(T['flatten_operand'], x0=x0, x1=x1, x2=x2) == [x0, x1, x2, 2]
+
+
+# --- added after round-3 seeded changes and defects: keys of mixed, not mutually comparable types; NaN keys; subarray upper bound ----------
+
+from decimal import Decimal as _Dec  # noqa: E402
+from elementpath.datatypes import Date10 as _Date, DayTimeDuration as _DTD, Float as _Flt  # noqa: E402
+T.update(parse_all({
+    'mk_put2': 'map:put(map:put(map{}, $k1, 1), $k2, 2)', 'mk_ctor2': 'map:merge((map:entry($k1, 1), map:entry($k2, 2)), map{"duplicates": "use-last"})',
+    'mk_all': 'let $m := map:put(map:put(map{"z": 0}, $k1, 1), $k2, 2) return (map:size($m), map:contains($m, $k1), map:contains($m, $k2), '
+              'map:get($m, $k1), $m($k2), map:size(map:remove($m, $k1)), map:size(map:remove($m, ($k1, $k2))), '
+              'every $k in map:keys($m) satisfies map:contains($m, $k))',
+    'mk_merge': 'map:size(map:merge((map{"z": 0}, map:entry($k1, 1), map:entry($k2, 2))))',
+}))
+MIXED_KEYS = (3, _Dec('3'), 3.0, 'a', _Date(2020, 1, 1), _DTD(seconds=60), float('nan'), _Flt('NaN'), _Dec('2.5'), 'b')
+#              same numeric key -------                                          same NaN key -----------
+_CLASS = (0, 0, 0, 1, 2, 3, 4, 4, 5, 6)
+
+
+_MK = '''
+@ob(budget=150, family='mixed-keys', bound='first key = entry {i} of a table of 10 values of 7 types (integer / decimal / double of equal value, strings, '
+                      'xs:date, xs:dayTimeDuration, double and float NaN), second key: any entry (index chosen by the solver): map:put/get/contains/remove/'
+                      'keys/merge identify keys by op:same-key (numerically equal numbers and the NaNs are one key; values of not comparable '
+                      'types are different keys, no error)',
+    funcs=[F31 + ':map:put', F31 + ':map:contains', F31 + ':map:remove', F31 + ':map:merge', 'elementpath/xpath_tokens/maps.py:XPathMap.__init__',
+           'elementpath/helpers.py:not_equal'])
+def map_keys_of_mixed_types_{i}(j: int) -> bool:
+    """
+    pre: 0 <= j <= 9
+    post: _
+    """
+    i = {i}
+    j = [k for k in range(10) if k == j][0]
+    k1, k2 = MIXED_KEYS[i], MIXED_KEYS[j]
+    same = _CLASS[i] == _CLASS[j]
+    r = ev(T['mk_all'], k1=k1, k2=k2)
+    want = [2 if same else 3, True, True, 2 if same else 1, 2, 1 if same else 2, 1, True]
+    return r == want and ev(T['mk_merge'], k1=k1, k2=k2) == [2 if same else 3]
+'''
+from harness.common import define  # noqa: E402
+for _i in range(10):
+    define(_MK.format(i=_i), globals())
+
+
+# recorded findings: key identity is the identity of Python dict keys (hash + ==) of the datatype classes
+T.update(parse_all({'kf_bool': '(map:contains(map{1: "a"}, true()), map:size(map:merge((map{1: "a"}, map{true(): "b"}))))',
+                    'kf_time': 'map:size(map{xs:date($d): 1, xs:time($t): 2})'}))
+
+
+@ob(budget=60, kind='witness', finding='C15-boolean-numeric-key', bound='the keys true() and 1 (op:same-key is false across boolean and numeric types)',
+    funcs=['elementpath/xpath_tokens/maps.py:XPathMap', F31 + ':map:contains'])
+def known_boolean_numeric_key(k: int) -> bool:
+    """
+    pre: k == 1
+    post: _
+    """
+    return ev(T['kf_bool']) == [False, 2]
+
+
+@ob(budget=60, kind='witness', finding='C15-date-time-key-collision', bound='the keys xs:date("2000-01-01") and xs:time("00:00:00") (equal hashes, == raises TypeError)',
+    funcs=['elementpath/xpath_tokens/maps.py:XPathMap._evaluate', 'elementpath/datatypes/datetime.py:AbstractDateTime.__hash__/__eq__'])
+def known_date_time_key_collision(k: int) -> bool:
+    """
+    pre: k == 1
+    post: _
+    """
+    return ev(T['kf_time'], d='2000-01-01', t='00:00:00') == [2]
